@@ -122,8 +122,8 @@ Example C42_nonvacuous :
                  [1099511627776; 2199023255552; 3298534883328] 3)
              [2199023255568; 2199023255552; 1099511627792; 1099511627776; 3298534883344]) /\
   model_run 16 40 [Alloc; Alloc; Alloc; Dealloc 0; Alloc; Clear; Alloc; Alloc; Alloc; Alloc; Alloc] =
-    Some ([(0, 16, 1, 2); (0, 0, 1, 2); (1, 16, 2, 4); (-1, -1, 2, 4); (0, 16, 2, 4); (-1, -1, 2, 4);
-           (1, 16, 2, 4); (1, 0, 2, 4); (0, 16, 2, 4); (0, 0, 2, 4); (2, 16, 3, 6)], [1; 0; 2]).
+    Some ([ObA 0 16 1 2; ObA 0 0 1 2; ObA 1 16 2 4; ObN 2 4; ObA 0 16 2 4; ObN 2 4;
+           ObA 1 16 2 4; ObA 1 0 2 4; ObA 0 16 2 4; ObA 0 0 2 4; ObA 2 16 3 6], [1; 0; 2]).
 Proof.
   split; [lia|]. split; [apply oracle_pa_fresh; vm_compute; discriminate|].
   split; vm_compute; reflexivity.
